@@ -912,6 +912,93 @@ fn payment_outcome_battery(_a: &mut Vec<i128>) -> String {
 	format!("{} {}", bad, total)
 }
 
+/// monitor_update_probe <scenario>: two live nodes; a persister answers InProgress for one monitor update.
+///   1 at the SENDER: the payment's update_add_htlc / commitment_signed must not leave the node until the update is reported
+///     complete (ChainMonitor::channel_monitor_updated), and then exactly that one message batch leaves;
+///   2 at the RECEIVER of a commitment_signed: neither revoke_and_ack nor its own commitment_signed may leave until the
+///     update is complete, then both leave, revoke_and_ack first;
+///   3 as 2, but a completion is first reported for an update id that is NOT the pending one: nothing may be released.
+/// Output: `1` if so, `0 <what>` otherwise.
+fn monitor_update_probe(a: &mut Vec<i128>) -> String {
+	use lightning::chain::ChannelMonitorUpdateStatus;
+	use lightning::ln::channelmanager::PaymentId;
+	use lightning::ln::msgs::{ChannelMessageHandler, MessageSendEvent};
+	use lightning::ln::outbound_payment::RecipientOnionFields;
+	let scenario = a[0];
+	let chanmon_cfgs = create_chanmon_cfgs(2);
+	let node_cfgs = create_node_cfgs(2, &chanmon_cfgs);
+	let node_chanmgrs = create_node_chanmgrs(2, &node_cfgs, &[None, None]);
+	let nodes = create_network(2, &node_cfgs, &node_chanmgrs);
+	let (id_a, id_b) = (nodes[0].node.get_our_node_id(), nodes[1].node.get_our_node_id());
+	let chan_id = create_announced_chan_between_nodes(&nodes, 0, 1).2;
+	let (route, hash, _preimage, secret) = lightning::get_route_and_payment_hash!(nodes[0], nodes[1], 1_000_000);
+	let mut verdict = String::from("1");
+	if scenario == 1 {
+		chanmon_cfgs[0].persister.set_update_ret(ChannelMonitorUpdateStatus::InProgress);
+		nodes[0].node.send_payment_with_route(route, hash, RecipientOnionFields::secret_only(secret, 1_000_000), PaymentId(hash.0)).unwrap();
+		check_added_monitors(&nodes[0], 1);
+		if !nodes[0].node.get_and_clear_pending_msg_events().is_empty() {
+			verdict = String::from("0 the HTLC left the sender before its monitor update was complete");
+		}
+		chanmon_cfgs[0].persister.set_update_ret(ChannelMonitorUpdateStatus::Completed);
+		let (latest, _) = nodes[0].chain_monitor.get_latest_mon_update_id(chan_id);
+		nodes[0].chain_monitor.chain_monitor.channel_monitor_updated(chan_id, latest).unwrap();
+		let evs = nodes[0].node.get_and_clear_pending_msg_events();
+		let ok = evs.len() == 1 && matches!(&evs[0], MessageSendEvent::UpdateHTLCs { node_id, updates, .. } if *node_id == id_b && updates.update_add_htlcs.len() == 1 && updates.commitment_signed.len() == 1);
+		if !ok && verdict == "1" {
+			verdict = String::from("0 completion did not release exactly the held update_add_htlc + commitment_signed");
+		}
+	} else {
+		nodes[0].node.send_payment_with_route(route, hash, RecipientOnionFields::secret_only(secret, 1_000_000), PaymentId(hash.0)).unwrap();
+		check_added_monitors(&nodes[0], 1);
+		let mut evs = nodes[0].node.get_and_clear_pending_msg_events();
+		let send = SendEvent::from_event(evs.pop().unwrap());
+		nodes[1].node.handle_update_add_htlc(id_a, &send.msgs[0]);
+		chanmon_cfgs[1].persister.set_update_ret(ChannelMonitorUpdateStatus::InProgress);
+		nodes[1].node.handle_commitment_signed_batch_test(id_a, &send.commitment_msg);
+		check_added_monitors(&nodes[1], 1);
+		if !nodes[1].node.get_and_clear_pending_msg_events().is_empty() {
+			verdict = String::from("0 the receiver answered a commitment_signed before its monitor update was complete");
+		}
+		chanmon_cfgs[1].persister.set_update_ret(ChannelMonitorUpdateStatus::Completed);
+		let (latest, _) = nodes[1].chain_monitor.get_latest_mon_update_id(chan_id);
+		if scenario == 3 {
+			nodes[1].chain_monitor.chain_monitor.channel_monitor_updated(chan_id, latest + 7).unwrap();
+			if !nodes[1].node.get_and_clear_pending_msg_events().is_empty() && verdict == "1" {
+				verdict = String::from("0 a completion for another update id released the held messages");
+			}
+		}
+		nodes[1].chain_monitor.chain_monitor.channel_monitor_updated(chan_id, latest).unwrap();
+		let evs = nodes[1].node.get_and_clear_pending_msg_events();
+		let ok = evs.len() == 2
+			&& matches!(&evs[0], MessageSendEvent::SendRevokeAndACK { node_id, .. } if *node_id == id_a)
+			&& matches!(&evs[1], MessageSendEvent::UpdateHTLCs { node_id, updates, .. } if *node_id == id_a && updates.commitment_signed.len() == 1);
+		if !ok && verdict == "1" {
+			verdict = format!("0 completion released {} message batches instead of revoke_and_ack followed by commitment_signed", evs.len());
+		}
+	}
+	for n in nodes.iter() {
+		n.node.get_and_clear_pending_msg_events();
+		n.node.get_and_clear_pending_events();
+		n.chain_monitor.added_monitors.lock().unwrap().clear();
+	}
+	core::mem::forget(nodes);
+	verdict
+}
+
+/// monitor_update_battery: scenarios 1-3 of monitor_update_probe. Output: `<scenarios that failed or panicked> <scenarios run>`.
+fn monitor_update_battery(_a: &mut Vec<i128>) -> String {
+	let (mut bad, mut total) = (0u32, 0u32);
+	for sc in 1i128..=3 {
+		total += 1;
+		match catch_unwind(AssertUnwindSafe(|| monitor_update_probe(&mut vec![sc]))) {
+			Ok(v) if v == "1" => {},
+			_ => bad += 1,
+		}
+	}
+	format!("{} {}", bad, total)
+}
+
 fn main() {
 	if std::env::var("ORACLE_DEBUG").is_err() { std::panic::set_hook(Box::new(|_| {})); }
 	let stdin = std::io::stdin();
@@ -928,6 +1015,8 @@ fn main() {
 		let r = catch_unwind(AssertUnwindSafe(|| match name.as_str() {
 			"forward_probe" => forward_probe(&mut args),
 			"persister_probe" => persister_probe(&mut args),
+			"monitor_update_probe" => monitor_update_probe(&mut args),
+			"monitor_update_battery" => monitor_update_battery(&mut args),
 			"payment_outcome_probe" => payment_outcome_probe(&mut args),
 			"payment_outcome_battery" => payment_outcome_battery(&mut args),
 			"persister_battery" => persister_battery(&mut args),
